@@ -41,6 +41,7 @@ structure DS where
   s1 : NSMem := {}
   its : List (Nat × Iter) := []
   gens : List (Nat × NGen) := []
+  probe : Triple := (0, 0, 0)
 
 def tripleLt (a b : Triple) : Bool := lexLt [a.1, a.2.1, a.2.2] [b.1, b.2.1, b.2.2]
 
@@ -90,20 +91,35 @@ def DS.sput (d : DS) (i : Nat) (s : NSMem) : DS × String :=
 def sidx? (w : String) : Option Nat := if w = "0" then some 0 else if w = "1" then some 1 else none
 
 def binop (op : String) (xs : List Triple) (inA : Triple → Bool) (ys : List Triple) (inB : Triple → Bool) :
-    Option Mem :=
-  if op = "add" then some (View.union ⟨xs, inA⟩ ⟨ys, inB⟩ 1000)
-  else if op = "sub" then some (View.diff ⟨xs, inA⟩ ⟨ys, inB⟩ 1000)
-  else if op = "mul" then some (View.inter ⟨xs, inA⟩ ⟨ys, inB⟩ 1000)
-  else if op = "xor" then some (View.xor ⟨xs, inA⟩ ⟨ys, inB⟩ 1000)
+    Option NMem :=
+  if op = "add" then some (View.nunion ⟨xs, inA⟩ ⟨ys, inB⟩ 1000)
+  else if op = "sub" then some (View.ndiff ⟨xs, inA⟩ ⟨ys, inB⟩ 1000)
+  else if op = "mul" then some (View.ninter ⟨xs, inA⟩ ⟨ys, inB⟩ 1000)
+  else if op = "xor" then some (View.nxor ⟨xs, inA⟩ ⟨ys, inB⟩ 1000)
   else none
 
 /-- iteration of an operand graph that lives on some other store and holds the listed triples -/
 def dedup (ts : List Triple) : List Triple := ts.foldl sinsert []
 
-def showBin (r : Option Mem) : String :=
+/-- the new graph (round h: a `Memory` over nested dictionaries) as the harness looks at it: `list(r)`, three
+    one-position patterns of the probe triple (they read `spo`, `pos`, `osp` of the NEW store) and `probe in r` -/
+def showBin (pr : Triple) (r : Option NMem) : String :=
   match r with
-  | some m => if m.err || triplesRaises m allPat then "error" else showTriples (m.graph 1000)
+  | some m =>
+    if m.cx.err || m.triplesRaises (some pr.1, none, none) || m.triplesRaises (none, some pr.2.1, none)
+        || m.triplesRaises (none, none, some pr.2.2) then "error"
+    else showTriples (m.drain allPat (some 1000)) ++ " | " ++ showTriples (m.drain (some pr.1, none, none) (some 1000))
+      ++ " | " ++ showTriples (m.drain (none, some pr.2.1, none) (some 1000))
+      ++ " | " ++ showTriples (m.drain (none, none, some pr.2.2) (some 1000))
+      ++ " | " ++ (if m.contains pr 1000 then "1" else "0")
   | none => "bad-op"
+
+/-- `t:*` | `t:7` (a term) | `l:` | `l:1,2` (a list of terms) -/
+def arg? (w : String) : Option Arg :=
+  match w.splitOn ":" with
+  | ["t", x] => (optNat? x).map Arg.term
+  | ["l", x] => if x = "" then some (Arg.list []) else ((x.splitOn ",").mapM (fun (y : String) => y.toNat?)).map Arg.list
+  | _ => none
 
 def iterAdm (d : DS) (k : Nat) (t : Triple) : DS × String :=
   match alookup d.its k with
@@ -197,24 +213,24 @@ def step (d : DS) : List String → DS × String
   | ["bin", op, g, h] =>
     match g.toNat?, h.toNat? with
     | some g, some h =>
-      (d, showBin (binop op (d.m.graph g) (fun x => d.m.contains x g) (d.m.graph h) (fun x => d.m.contains x h)))
+      (d, showBin d.probe (binop op (d.m.graph g) (fun x => d.m.contains x g) (d.m.graph h) (fun x => d.m.contains x h)))
     | _, _ => (d, "bad-op")
   | "binl" :: op :: g :: side :: r =>
     match g.toNat?, triples? r with
     | some g, some ts =>
       if side = "R" then
-        (d, showBin (binop op (d.m.graph g) (fun x => d.m.contains x g) (dedup ts) (fun x => decide (x ∈ ts))))
+        (d, showBin d.probe (binop op (d.m.graph g) (fun x => d.m.contains x g) (dedup ts) (fun x => decide (x ∈ ts))))
       else if side = "L" then
-        (d, showBin (binop op (dedup ts) (fun x => decide (x ∈ ts)) (d.m.graph g) (fun x => d.m.contains x g)))
+        (d, showBin d.probe (binop op (dedup ts) (fun x => decide (x ∈ ts)) (d.m.graph g) (fun x => d.m.contains x g)))
       else (d, "bad-op")
     | _, _ => (d, "bad-op")
   | "sbinl" :: op :: i :: side :: r =>
     match sidx? i, triples? r with
     | some i, some ts =>
       if side = "R" then
-        (d, showBin (binop op ((d.sget i).triples allPat) (fun x => (d.sget i).contains x) (dedup ts) (fun x => decide (x ∈ ts))))
+        (d, showBin d.probe (binop op ((d.sget i).triples allPat) (fun x => (d.sget i).contains x) (dedup ts) (fun x => decide (x ∈ ts))))
       else if side = "L" then
-        (d, showBin (binop op (dedup ts) (fun x => decide (x ∈ ts)) ((d.sget i).triples allPat) (fun x => (d.sget i).contains x)))
+        (d, showBin d.probe (binop op (dedup ts) (fun x => decide (x ∈ ts)) ((d.sget i).triples allPat) (fun x => (d.sget i).contains x)))
       else (d, "bad-op")
     | _, _ => (d, "bad-op")
   | ["iopen", k, g, a, b, c] =>
@@ -229,6 +245,18 @@ def step (d : DS) : List String → DS × String
       else if sl = "p" then (d, showTriples (d.m.triplesChoices .p cs a b (some g)))
       else if sl = "o" then (d, showTriples (d.m.triplesChoices .o cs a b (some g)))
       else (d, "bad-op")
+    | _, _, _, _ => (d, "bad-op")
+  | ["binprobe", a, b, c] =>
+    match triple? a b c with
+    | some t => ({ d with probe := t }, "ok")
+    | none => (d, "bad-op")
+  -- tchg g S P O : graph g's triples_choices with every position a term (`t:…`) or a list (`l:…`)
+  | ["tchg", g, a, b, c] =>
+    match g.toNat?, arg? a, arg? b, arg? c with
+    | some g, some a, some b, some c =>
+      match d.m.triplesChoicesG a b c (some g) with
+      | some ts => (d, showTriples ts)
+      | none => (d, "ValueError")
     | _, _, _, _ => (d, "bad-op")
   | ["gopen", k, g, a, b, c] =>
     match k.toNat?, g.toNat?, pat? a b c with
@@ -299,7 +327,7 @@ def step (d : DS) : List String → DS × String
   | ["sbin", op, i, j] =>
     match sidx? i, sidx? j with
     | some i, some j =>
-      (d, showBin (binop op ((d.sget i).triples allPat) (fun x => (d.sget i).contains x)
+      (d, showBin d.probe (binop op ((d.sget i).triples allPat) (fun x => (d.sget i).contains x)
             ((d.sget j).triples allPat) (fun x => (d.sget j).contains x)))
     | _, _ => (d, "bad-op")
   | _ => (d, "bad-op")
